@@ -1,20 +1,20 @@
 package verifharness
 
 func init() {
-	bindProp("C01", "H3", "H1")
+	bindProp("C01", "H3", "H1", "H3", "H1", "H6")
 	bindProp("C17", "H3", "H1")
-	bindProp("C03", "H1", "H1", "H2")
-	bindProp("C04", "H1")
-	bindProp("C05", "H1")
-	bindProp("C06", "H1")
-	bindProp("C07", "H1")
+	bindProp("C03", "H1", "H1", "H2", "H6")
+	bindProp("C04", "H1", "H1", "H2")
+	bindProp("C05", "H1", "H1", "H6")
+	bindProp("C06", "H1", "H1", "H6")
+	bindProp("C07", "H1", "H1", "H6")
 	bindProp("C08", "H1")
 	bindProp("C09", "H5", "H1")
 	bindProp("C10", "H5")
 	bindProp("C11", "H5")
 	bindProp("C12", "H5")
 	bindProp("C13", "H5")
-	bindProp("C02", "H2", "H2", "H1")
+	bindProp("C02", "H2", "H2", "H1", "H5")
 	bindProp("C16", "H1")
 	bindProp("C19", "H1")
 	bindProp("C20", "H1")
